@@ -75,6 +75,9 @@ type Case struct {
 	// fixtures contain them; seeded change C20-n1: a repair of a torn tail
 	// that does not count them)
 	Blank int `json:"blank,omitempty"`
+	// Bg: when goroutines started by the code under test run (simos.BgEager /
+	// BgDeferred / BgInterleave; rule R13). The unchanged tree starts none.
+	Bg int `json:"bg,omitempty"`
 	// ShortRead, when > 0: the files are read at most that many bytes per
 	// Read call (a reader may always deliver less than asked for).
 	ShortRead int `json:"short_read,omitempty"`
@@ -84,6 +87,7 @@ type engine struct {
 	rangedSkipped, rangedPartial int
 	safeRanged                   bool // of the case being executed
 	blank                        int  // of the case being executed
+	bg                           int  // of the case being executed
 	shortWrite bool
 	base       string
 	n          int
@@ -388,6 +392,7 @@ func (e *engine) Generate(seed uint64, idx int, tier string, avoid []harness.Fin
 		// (drawn last, so that every other case is what it was before)
 		c.Blank = 1 + r.Intn(3)
 	}
+	c.Bg = r.Intn(3)
 	b, _ := json.Marshal(c)
 	return b
 }
@@ -571,6 +576,9 @@ func (w *world) destroy() {
 // failed.
 func (w *world) boot() (fail string) {
 	if w.sess != nil {
+		// a clean exit waits for the work it started in the background; a
+		// dead process does not (End abandons what is pending)
+		w.sess.Drain()
 		w.steps += w.sess.Steps
 		w.sess.End()
 	}
@@ -586,6 +594,7 @@ func (w *world) boot() (fail string) {
 	w.stashCur = 0
 	w.sess = simos.Begin(simos.Plan{})
 	w.sess.KeepLog = false
+	w.sess.SetBgMode(w.e.bg)
 	if w.armK > 0 {
 		w.sess.ArmCrash(w.armK, w.armAfter)
 		w.armK = 0
@@ -1026,6 +1035,7 @@ func (e *engine) Execute(raw json.RawMessage) (vd harness.Verdict) {
 	a := &acc{faults: map[string]int{}, probes: map[string]int{}}
 	e.safeRanged = c.SafeRanged
 	e.blank = c.Blank
+	e.bg = c.Bg
 	simos.SetKnob("linereader", c.LineBuf)
 	defer simos.SetKnob("linereader", 0)
 	simos.SetKnob("bufio", c.LineBuf)
@@ -1313,7 +1323,7 @@ func (e *engine) Shrink(raw json.RawMessage) (out []json.RawMessage) {
 		// (SafeRanged is kept: without it a ranged clear of the shrunk case
 		// would be executed in the range the known finding covers and the
 		// violation would be taken for that finding)
-		n := Case{NoFaults: c.NoFaults, SafeRanged: c.SafeRanged, LineBuf: c.LineBuf, ShortRead: c.ShortRead, Blank: c.Blank}
+		n := Case{NoFaults: c.NoFaults, SafeRanged: c.SafeRanged, LineBuf: c.LineBuf, ShortRead: c.ShortRead, Blank: c.Blank, Bg: c.Bg}
 		n.Ops = make([]Op, len(c.Ops))
 		copy(n.Ops, c.Ops)
 		if c.Pin != nil {
